@@ -1,0 +1,36 @@
+//go:build verif
+
+// Read-only accessors used by the verification harness in /verif (build tag
+// "verif"). Nothing here is compiled into normal builds.
+
+package comet
+
+// VerifFlatState returns the stored ids and (preprocessed) vectors in slice
+// order together with the soft-deleted ids.
+func (idx *FlatIndex) VerifFlatState() (ids []uint32, vecs [][]float32, deleted []uint32) {
+	idx.mu.RLock()
+	defer idx.mu.RUnlock()
+	for _, v := range idx.vectors {
+		ids = append(ids, v.ID())
+		vecs = append(vecs, append([]float32(nil), v.Vector()...))
+	}
+	deleted = idx.deletedNodes.ToArray()
+	return
+}
+
+// VerifSanitizeK exposes limiter.go's sanitizeK.
+func VerifSanitizeK(k, n int) int { return sanitizeK(k, n) }
+
+// VerifMergeResults exposes storage_merge.go's mergeResults + sortResultsByScore.
+func VerifMergeResults(in []HybridSearchResult, sortIt bool) []HybridSearchResult {
+	out := mergeResults(in)
+	if sortIt {
+		sortResultsByScore(out)
+	}
+	return out
+}
+
+// VerifScoreMapToRanks exposes fusion.go's scoreMapToRanks.
+func VerifScoreMapToRanks(scores map[uint32]float64, ascending bool) map[uint32]int {
+	return scoreMapToRanks(scores, ascending)
+}
